@@ -46,8 +46,11 @@ type Script struct {
 	OfferSM     bool     `json:"offer_sm,omitempty"`
 	BindJid     string   `json:"bind_jid,omitempty"`
 	SMId        string   `json:"sm_id,omitempty"`
-	SMResume    string   `json:"sm_resume,omitempty"`    // value of the resume attribute of <enabled/>; "-" omits it
-	ResumeReply string   `json:"resume_reply,omitempty"` // resumed-same (default) resumed-other failed failed-h failed-item-not-found failed-unexpected-request ...
+	SMResume    string   `json:"sm_resume,omitempty"` // value of the resume attribute of <enabled/>; "-" omits it
+	// Glue: step -> bytes written together with the (successful) reply to that step, in one write: what a server sends
+	// right behind the last reply of the negotiation must not be lost on the way to the receive loop
+	Glue        map[string]string `json:"glue,omitempty"`
+	ResumeReply string            `json:"resume_reply,omitempty"` // resumed-same (default) resumed-other failed failed-h failed-item-not-found failed-unexpected-request ...
 	// Dev: step -> deviation. Steps: open1 starttls tls open2 auth open3 resume bind session enable
 	Dev map[string]Dev `json:"dev,omitempty"`
 	// Variant: step -> which success variant to use (0 = plain)
@@ -153,7 +156,9 @@ type devIO interface {
 	HalfClose()
 }
 
-func (c *Conn) playDev(step string, d Dev, req *Event) (ended bool) { return playDevOn(c, step, d, req) }
+func (c *Conn) playDev(step string, d Dev, req *Event) (ended bool) {
+	return playDevOn(c, step, d, req)
+}
 
 func playDevOn(c devIO, step string, d Dev, req *Event) (ended bool) {
 	id := ""
@@ -271,7 +276,11 @@ func (c *Conn) Negotiate(s *Script, timeout time.Duration) *Outcome {
 			}
 			return c.playDev(step, d, req)
 		}
+		if g, has := s.Glue[step]; has {
+			c.glueNext = g
+		}
 		ok()
+		c.glueNext = ""
 		if !faulted {
 			out.Completed = append(out.Completed, step)
 		}
